@@ -345,14 +345,17 @@ def seams(name_seed: int, clock_mode: str = "monotone"):
     import sedpack.io.utils as su
     rng = random.Random(name_seed)
     real_uuid4 = _uuid.uuid4
-    real_time = su.time
+    # (a restructured utils.py may not import `time` at all)
+    has_time = hasattr(su, "time")
+    real_time = su.time if has_time else None
     state = random.getstate()
 
     def uuid4():
         return _uuid.UUID(int=rng.getrandbits(128), version=4)
 
     _uuid.uuid4 = uuid4
-    su.time = SeededClock(random.Random(name_seed ^ 0x5EED), clock_mode)
+    if has_time:
+        su.time = SeededClock(random.Random(name_seed ^ 0x5EED), clock_mode)
     random.seed(name_seed)
     # a tuning knob the code may consult: the number of CPUs is a seeded
     # choice per run (1..4 or 16), so that behaviour which depends on
@@ -360,13 +363,48 @@ def seams(name_seed: int, clock_mode: str = "monotone"):
     real_cpu_count = os.cpu_count
     cpus = random.Random(name_seed ^ 0xC9).choice([1, 2, 3, 4, 16])
     os.cpu_count = lambda: cpus
+    # another one: where the process-wide temporary directory lives.  The
+    # datasets are on /dev/shm; in half of the runs $TMPDIR is on another
+    # file system (as /tmp usually is relative to a data disk), so that a
+    # rename from there cannot be atomic
+    import tempfile
+    real_tempdir = tempfile.tempdir
+    if (name_seed >> 7) & 1:
+        tempfile.tempdir = other_fs_tmpdir()
     try:
         yield sio
     finally:
+        tempfile.tempdir = real_tempdir
         os.cpu_count = real_cpu_count
         _uuid.uuid4 = real_uuid4
-        su.time = real_time
+        if has_time:
+            su.time = real_time
         random.setstate(state)
+
+
+_OTHER_FS_TMP: list = []
+
+
+def other_fs_tmpdir() -> str:
+    """A private temporary directory on a file system other than the one the
+    scratch datasets live on (removed when the process ends)."""
+    if not _OTHER_FS_TMP or not os.path.isdir(_OTHER_FS_TMP[0]):
+        # (created and removed by simlib/main.py for the whole check)
+        path = os.environ.get("VERIF_OTHERFS_TMP")
+        if not path:
+            import atexit
+            import shutil
+            path = f"/var/tmp/verif-otherfs-{os.getpid()}"
+            pid = os.getpid()
+
+            def cleanup() -> None:
+                if os.getpid() == pid:
+                    shutil.rmtree(path, ignore_errors=True)
+
+            atexit.register(cleanup)
+        os.makedirs(path, exist_ok=True)
+        _OTHER_FS_TMP[:] = [path]
+    return _OTHER_FS_TMP[0]
 
 
 # ------------------------------------------------------------------ the model
